@@ -32,6 +32,7 @@ static char xkwd[EXLEN];	/* the last searched keyword */
 static char xrep[EXLEN];	/* the last replacement */
 static int xkwddir;		/* the last search direction */
 static int xgdep;		/* global command recursion depth */
+static int xdeep;		/* commands nested too deeply; abandon them */
 static char **next;		/* argument list */
 static int next_pos;		/* position in argument list */
 
@@ -1383,7 +1384,7 @@ static int ex_exec(char *ln)
 		ex_show("command too long");
 		return 1;
 	}
-	while (*ln) {
+	while (*ln && !xdeep) {
 		char *txt = NULL;
 		int idx;
 		ln = ex_loc(ln, loc);
@@ -1405,13 +1406,17 @@ int ex_command(char *ln)
 {
 	static int dep;		/* nesting of @, ra, so, ... */
 	int ret = 1;
-	if (dep < 32) {
+	if (dep < 32 && !xdeep) {
 		dep++;
 		ret = ex_exec(ln);
 		dep--;
 	} else {
-		ex_show("command nesting too deep");
+		if (!xdeep)
+			ex_show("command nesting too deep");
+		xdeep = 1;	/* unwind all the way */
 	}
+	if (!dep)
+		xdeep = 0;
 	lbuf_modified(xb);
 	return ret;
 }
